@@ -177,11 +177,13 @@ impl ArgMatcher {
                 Some(compare_macro) => {
                     let span = pat_macro.mac.path.span();
                     let tokens = pat_macro.mac.tokens;
-                    let local_ident = syn::Ident::new(&format!("l{local_counter}"), span);
+                    // Generated identifiers must not collide with bindings in user patterns
+                    let hygienic_span = proc_macro2::Span::mixed_site().located_at(span);
+                    let local_ident =
+                        syn::Ident::new(&format!("l{local_counter}"), hygienic_span);
                     *local_counter += 1;
 
-                    let pat_bind_ident =
-                        syn::Ident::new(&format!("m{index}"), pat_macro.mac.path.span());
+                    let pat_bind_ident = syn::Ident::new(&format!("m{index}"), hygienic_span);
 
                     Self::Compare(CompareMatcher {
                         span,
